@@ -288,6 +288,8 @@ def rule_shortcut_injective(ctx):
 
 def run(ctx):
     from . import pyrules
+    pyrules.rule_undefined_names(ctx, 'R18.11')     # every name a function of the Python layer loads is bound somewhere
+    from . import pyrules
     pyrules.rule_wrapper_state(ctx, 'R18.10')      # the Python objects are views: no state of their own
     rule_shortcut_injective(ctx)
     from . import c16
